@@ -124,6 +124,9 @@ def b_len(ex, args, kw):
         f = 'len' if CONTAINERS[v.shape.cls][0] == 'list' else 'size'
         return ex.path.read_field(v, f)
     if isinstance(v, SRef):
+        decl = ex.world.classes.get(v.shape.cls)
+        if decl is not None and '__len__' in decl.methods:
+            return decl.methods['__len__'](ex, [v], {})          # declared (assumed) length
         m = ex.class_attr(v, '__len__')
         if m is not None:
             return ex.call_value(m, [], {})
